@@ -723,7 +723,7 @@ fn main() {
     let tier = arg_value(&args, "--tier").unwrap_or("quick".into());
     let mut rng = Rng::new(env_seed());
     let mut count = 0u64;
-    let (ncfg, nhost, nseq, nstd) = if tier == "quick" { (40, 8, 400, 600) } else { (1500, 300, 20000, 30000) };
+    let (ncfg, nhost, nseq, nstd) = if tier == "quick" { (40, 8, 400, 600) } else { (600, 120, 8000, 20000) };
     exhaustive_outcomes(&mut out, &mut count);
     for _ in 0..ncfg {
         let cfg = gen_cfg(&mut rng, false);
